@@ -5,7 +5,7 @@ none of it."""
 import threading
 from pyvc.contract import *
 
-FORMS = ["kw X", "kw NEW", "other X", "overlay X", "mask X", "mask-overlay X", "both X"]
+FORMS = ["kw X", "kw NEW", "other X", "overlay X", "mask X", "mask-overlay X", "both X", "bad-value X"]
 
 
 def scopes(tier, seed):
@@ -32,6 +32,9 @@ def scopes(tier, seed):
         name = form.split()[1]
         if form.startswith("kw"):
             return env.swap(**{name: "k%d" % i})
+        if form.startswith("bad-value"):
+            # X is swapped, then a second variable gets a value that fails to convert: entering the scope raises, X must not stay swapped
+            return env.swap(X="x%d" % i, XONSH_HISTORY_SIZE="not a size")
         if form.startswith("both"):
             return env.swap({name: "o%d" % i}, **{name: "b%d" % i})   # the same variable in `other` AND as a keyword
         if form.startswith("other"):
@@ -71,16 +74,17 @@ def scopes(tier, seed):
                     try:
                         try:
                             nest(0)
-                        except RuntimeError:
+                        except (RuntimeError, ValueError):
                             pass
                         nontrivial += 1
                         after = view(env)
-                        want = dict(before, OTHER=(True, "set-inside", "set-inside", "set-inside"))
+                        entered = "bad-value X" not in forms
+                        want = dict(before, OTHER=(True, "set-inside", "set-inside", "set-inside")) if entered else dict(before)
                         if after != want:
                             obs = "after the scopes %r are left: %r, expected %r" % (list(forms), {k: after[k] for k in after if after[k] != want[k]}, {k: want[k] for k in after if after[k] != want[k]})
                         else:
                             w2 = dict(before, OTHER=(True, "set-inside", "set-inside", "set-inside"))
-                            bad = {k: seen_by_other.get(k) for k in ("X", "NEW") if seen_by_other.get(k) != w2[k]}
+                            bad = {k: seen_by_other.get(k) for k in ("X", "NEW") if seen_by_other and seen_by_other.get(k) != w2[k]}
                             if bad:
                                 obs = "another thread, while the scopes %r were open, saw %r (the scoped values are this thread's only)" % (list(forms), bad)
                     except Exception as e:  # noqa
